@@ -62,3 +62,46 @@ def sizeof_elements(ctx, P, rule="SIZEOF-ELEM", tus=None, funcs=None, floor=150)
                 k += 1
     ctx.floor(rule, floor if (tus is None and funcs is None) else 1)
     return n
+
+
+def capacity(ctx, P, rule="CAPACITY"):
+    """calculate_max_rows / expand_*: the capacity finally stored is never below what the caller is about to write."""
+    from sa.cfg import CFG
+    from sa.expr import is_assign, calls
+    ctx.rule(rule, "the growth policy of the tables never returns a capacity below the rows about to be written: in "
+                   "calculate_max_rows every assignment that can lower or cap new_max_rows (the doubling branch, the 2M-row cap, "
+                   "the user increment) is followed on every path by `new_max_rows = TSK_MAX(new_max_rows, num_rows + additional_rows)` "
+                   "before the value is stored through the out-parameter; the overflow check comes first")
+    tu = P.tus["tables"]
+    for name in ("calculate_max_rows", "calculate_max_length"):
+        fn = P.func(name, "tables")
+        if fn is None:
+            continue
+        cfg = CFG(fn)
+        var = None
+        store = None
+        for n in cfg.nodes:
+            if n.kind == "stmt" and n.ast is not None and is_assign(n.ast) and estr(n.ast.kids[0]).startswith("*"):
+                store = n
+                var = estr(n.ast.kids[1])
+        ctx.ob(rule, "%s|store" % name, store is not None, tu.loc(fn.node), "result stored through the out-parameter from `%s`" % var)
+        if store is None:
+            continue
+        need = fn.params[0].name, fn.params[3].name
+        maxn = [n for n in cfg.nodes if n.kind == "stmt" and n.ast is not None and is_assign(n.ast) and estr(n.ast.kids[0]) == var
+                and "TSK_MAX" in tu.src(n.ast.kids[1]) and need[0] in tu.src(n.ast.kids[1]) and need[1] in tu.src(n.ast.kids[1])]
+        ctx.ob(rule, "%s|max" % name, len(maxn) >= 1, tu.loc(fn.node), "%s = TSK_MAX(%s, %s + %s) present" % (var, var, need[0], need[1]))
+        others = [n for n in cfg.nodes if n.kind == "stmt" and n.ast is not None and is_assign(n.ast) and estr(n.ast.kids[0]) == var and n not in maxn]
+        for o in others:
+            rhs = estr(o.ast.kids[1])
+            if rhs == fn.params[1].name:
+                # keeping the current capacity on the branch where it already suffices
+                conds = [c for c in cfg.nodes if c.kind == "cond" and c.ast is not None and need[0] in estr(c.ast) and need[1] in estr(c.ast)]
+                ctx.ob(rule, "%s|keep-current" % name, bool(conds), tu.loc(o.ast), "current capacity kept only under `%s + %s <= %s`" % (need[0], need[1], fn.params[1].name))
+                continue
+            ok = bool(maxn) and not cfg.path_exists(o, store, avoid=set(maxn))
+            ctx.ob(rule, "%s|%s" % (name, rhs[:50]), ok, tu.loc(o.ast),
+                   "followed by the TSK_MAX with the required size on every path to the store" if ok else
+                   "`%s = %s` can reach the store without being raised to %s + %s: the table is reallocated smaller than the rows about to be copied in" % (var, rhs[:60], need[0], need[1]))
+        first = [c for c in calls(fn.body) if callee(c) == "check_table_overflow" or callee(c) == "check_offset_overflow"]
+        ctx.ob(rule, "%s|overflow-first" % name, bool(first), tu.loc(fn.node), "overflow of num + additional checked")
